@@ -340,6 +340,15 @@ def run(pid, tier, seed, replay=None):
                 if hasattr(prop, "extra"):
                     extra_cov, extra_fail, extra_broken = prop.extra(gen_tier, seed)
                     broken += extra_broken
+                if getattr(prop, "MACRO_PARTS", None):
+                    # the macro's own code run as a library on generated definitions vs the model of the macro
+                    import macrofront
+                    mcov, mfail, mbroken = macrofront.for_property(prop.MACRO_PARTS, gen_tier, seed)
+                    extra_cov = dict(extra_cov, **mcov)
+                    extra_cov["evaluations"] = extra_cov.get("evaluations", 0) + mcov["macro_level_definitions"]
+                    extra_cov["distinct_nontrivial"] = extra_cov.get("distinct_nontrivial", 0) + mcov["macro_level_definitions"]
+                    extra_fail = list(extra_fail) + mfail
+                    broken += mbroken
         except Broken as b:
             broken.append(b)
         timings["correspond"] = time.time() - t0
